@@ -174,7 +174,13 @@ class Builder(NullCell):
         if isinstance(address, str):
             address = Address(address)
 
-        self.store_bits('100')  # addr_std$10 + maybe anycast = 0
+        self.store_bits('10')  # addr_std$10
+        if address.anycast is None:
+            self.store_bit(0)  # anycast:(Maybe Anycast) = nothing
+        else:
+            # anycast_info$_ depth:(#<= 30) { depth >= 1 } rewrite_pfx:(bits depth)
+            self.store_bit(1).store_uint(address.anycast.depth, 5)
+            self.store_uint(address.anycast.rewrite_pfx, address.anycast.depth)
 
         return self.store_int(address.wc, 8).store_bytes(address.hash_part)
 
